@@ -974,6 +974,24 @@ class Emitter:
         self.memo[t] = r
         return r
 
+    def coq_param(self, t, sym):
+        """unshared text of a term whose radii equal to `sym` are printed as the variable r"""
+        k = t[0]
+        rr = lambda v: "r" if v == sym else str(v)
+        if k in ("Img", "MaskE", "FalseC"):
+            return k
+        if k == "Const":
+            return "(Const %d)" % self.const(t[1])
+        if k in ("Erode", "ErodeP"):
+            return "(%s %s %s)" % (k, rr(t[1]), self.coq_param(t[2], sym))
+        if k in ("Pw", "Glob"):
+            return "(%s %d [%s])" % (k, self.sym(t[1]), "; ".join(self.coq_param(x, sym) for x in t[2]))
+        if k == "Loc":
+            return "(Loc %s %d %s)" % (rr(t[1]), self.sym(t[2]), self.coq_param(t[3], sym))
+        if k == "Select":
+            return "(Select %s %s %s)" % tuple(self.coq_param(x, sym) for x in t[1:])
+        raise Unsupported("emit(param) " + k)
+
     def _coq(self, t):
         k = t[0]
         if k in ("Img", "MaskE", "FalseC"):
